@@ -94,8 +94,22 @@ end LunarVerif.C08
 
 namespace LunarVerif.C08
 
-theorem store_nofault (d : Disk) (p : Path) (c : Bytes) : store false d p c = (d.write p c, true) := rfl
-theorem store_fault (d : Disk) (p : Path) (c : Bytes) : store true d p c = (d.remove p, false) := rfl
+theorem store_nofault (u : Bool) (d : Disk) (p : Path) (c : Bytes) :
+    store u false d p c = ((unlinked u d p).write p c, true) := rfl
+theorem store_fault (u : Bool) (d : Disk) (p : Path) (c : Bytes) :
+    store u true d p c = (unlinked u d p, false) := rfl
+
+/-- Whatever the unlink did, after the write the file holds exactly the new bytes. -/
+theorem get_write_unlinked (u : Bool) (d : Disk) (p : Path) (c : Bytes) (q : Path) :
+    ((unlinked u d p).write p c).get q = if q = p then some c else d.get q := by
+  rw [Disk.get_write]
+  by_cases hq : q = p
+  · simp [hq]
+  · cases u <;> simp [hq, unlinked, Disk.get_remove]
+
+theorem get_unlinked_other (u : Bool) (d : Disk) (p q : Path) (h : ¬ q = p) :
+    (unlinked u d p).get q = d.get q := by
+  cases u <;> simp [unlinked, Disk.get_remove, h]
 
 /-! ### Environment / state well-formedness -/
 
@@ -144,13 +158,13 @@ theorem saveAll_get (env : Env) :
     · have hf' : env.plan (.save q) = false := by simpa using hf
       rw [hf', store_nofault] at hok ⊢
       simp only [if_true] at hok ⊢
-      rw [ih (d.write q c) hok p]
+      rw [ih _ hok p]
       unfold overlay
       simp only [lastWrite]
       cases hl : lastWrite rest p with
       | some x => rfl
       | none =>
-        simp only [Disk.get_write]
+        simp only [get_write_unlinked]
         by_cases hq : q = p
         · subst hq; simp
         · have : ¬ p = q := fun e => hq e.symm
@@ -177,11 +191,11 @@ theorem saveAll_uncovered (env : Env) :
     unfold saveAll
     by_cases hf : env.plan (.save p) = true
     · rw [hf, store_fault]
-      simp [Disk.get_remove, hqp]
+      simp [get_unlinked_other _ _ _ _ hqp]
     · have hf' : env.plan (.save p) = false := by simpa using hf
       rw [hf', store_nofault]
       simp only [if_true]
-      rw [ih _ hrest q hq, Disk.get_write]
+      rw [ih _ hrest q hq, get_write_unlinked]
       simp [hqp]
 
 theorem parse_some (items : List Item) :
@@ -315,8 +329,8 @@ theorem storeBackAll_get (env : Env) (hnf : ∀ p, env.plan (.restoreStore p) = 
         rw [(ih _).2 q]
         by_cases hq : q = p
         · subst hq
-          by_cases hr : q ∈ rest <;> simp [hr, restoredGet, hbp, Disk.get_write]
-        · by_cases hr : q ∈ rest <;> simp [hr, hq, restoredGet, Disk.get_write]
+          by_cases hr : q ∈ rest <;> simp [hr, restoredGet, hbp, get_write_unlinked]
+        · by_cases hr : q ∈ rest <;> simp [hr, hq, restoredGet, get_write_unlinked]
 
 theorem snapshot_get (d : Disk) (q : Path) : (snapshot d).get q = if q.covered then d.get q else none := by
   unfold snapshot
